@@ -91,8 +91,12 @@ type distributedEngine struct {
 }
 
 func NewDistributedEngine(opts Opts, endpoints api.RemoteEndpoints) v1.QueryEngine {
+	// The list is copied: appending to the caller's slice would write into its backing array
+	// (logicalplan.AllOptimizers has spare capacity), which other engines built from the same list share.
+	optimizers := make([]logicalplan.Optimizer, 0, len(opts.LogicalOptimizers)+1)
+	optimizers = append(optimizers, opts.LogicalOptimizers...)
 	opts.LogicalOptimizers = append(
-		opts.LogicalOptimizers,
+		optimizers,
 		logicalplan.DistributedExecutionOptimizer{Endpoints: endpoints},
 	)
 	return &distributedEngine{
